@@ -54,7 +54,15 @@ def ends_diff(arr):
     return arr[-1, -1, -1] - arr[0, 0, 0]
 
 
+def lam_alpha(rel):
+    """depends on the keyword options handed to over_time (**rel_kwargs): Lambda and a user attribute"""
+    return rel['alpha'] * rel.Lambda + rel['gxx'] * getattr(rel, 'my_scale', 1.0)
+
+
 CUSTOM = {'double_gxx': double_gxx, 'lapse_sq': lapse_sq}
+# AurelCore keyword options passed through over_time(**rel_kwargs): every step's instance must receive them
+KW = dict(Lambda=0.25, my_scale=3.0)
+KW_REQUEST = dict(vars=[{'lam_alpha': lam_alpha}], estimates=[])
 REQUESTS = [
     dict(vars=['gammadet'], estimates=['max']),
     dict(vars=[{'double_gxx': double_gxx}], estimates=[]),
@@ -69,6 +77,14 @@ def requests_for(tier):
     return REQUESTS if tier == 'thorough' else REQUESTS[:4]
 
 
+def request_of(cfg, tier):
+    return KW_REQUEST if cfg['req'] == 'kw' else requests_for(tier)[cfg['req']]
+
+
+def kwargs_of(cfg):
+    return dict(KW) if cfg['req'] == 'kw' else {}
+
+
 def configs(tier):
     out = []
     for n in ((1, 2) if tier == 'quick' else (1, 2, 3)):
@@ -79,6 +95,9 @@ def configs(tier):
     # real-valued times (non-integer, possibly within the same unit interval), linear request: all orderings
     out.append(dict(n=2, req=1, split=False, tkey='t'))
     out.append(dict(n=3, req=1, split=False, tkey='t'))
+    # keyword options (Lambda, a user attribute) reach the instance of every step, in one call and split over two
+    out.append(dict(n=2, req='kw', split=False, tkey='it'))
+    out.append(dict(n=3 if tier != 'quick' else 2, req='kw', split=True, tkey='it'))
     # three successive calls with a custom (dict-form) estimate: [estimate only] ; [new variable, no estimate] ; [same variable,
     # estimate again] must give the table of the single call [variable, estimate]
     out.append(dict(n=2, req=0, split='hist3', tkey='it'))
@@ -89,10 +108,10 @@ def configs(tier):
     return out
 
 
-def expected_var(fd, step_inputs, v):
+def expected_var(fd, step_inputs, v, kw=None):
     """value a fresh AurelCore computes from this step's inputs alone"""
     from aurel.core import AurelCore
-    rel = AurelCore(fd, verbose=False)
+    rel = AurelCore(fd, verbose=False, **(kw or {}))
     for k, val in step_inputs.items():
         rel.data[k] = val
     rel.freeze_data()
@@ -119,7 +138,7 @@ def same_array(a, b):
     return True
 
 
-def check_table(out, steps, fd, req, tkey):
+def check_table(out, steps, fd, req, tkey, kw=None):
     probs = []
     c = ctx()
     n = len(steps)
@@ -144,7 +163,7 @@ def check_table(out, steps, fd, req, tkey):
         inputs = {k: v for k, v in steps[s].items()}
         computed = {}
         for v in req['vars']:
-            name, want = expected_var(fd, inputs, v)
+            name, want = expected_var(fd, inputs, v, kw)
             computed[name] = want
             if name not in out:
                 probs.append(f'requested variable {name} missing from the table')
@@ -186,7 +205,8 @@ def run_config(args):
     idx, tier = args
     cfg = configs(tier)[idx]
     from aurel import time as atime
-    req = requests_for(tier)[cfg['req']]
+    req = request_of(cfg, tier)
+    kw = kwargs_of(cfg)
     n, tkey = cfg['n'], cfg['tkey']
     name = (f"n={n} {tkey} vars={[v if isinstance(v, str) else list(v)[0] for v in req['vars']]} "
             f"estimates={req['estimates']}" + (' estimate / variable / estimate over three calls (custom estimate)' if cfg['split'] == 'hist3'
@@ -220,13 +240,13 @@ def run_config(args):
                 c_ = atime.over_time(b_, fd, vars=list(v_), estimates=list(cust), verbose=False)
                 probs = tables_equal(full, c_)
             elif not cfg['split']:
-                out = atime.over_time(dict(data), fd, vars=list(req['vars']), estimates=list(req['estimates']), verbose=False)
-                probs = check_table(out, steps, fd, req, tkey)
+                out = atime.over_time(dict(data), fd, vars=list(req['vars']), estimates=list(req['estimates']), verbose=False, **kw)
+                probs = check_table(out, steps, fd, req, tkey, kw)
             else:
-                full = atime.over_time(dict(data), fd, vars=list(req['vars']), estimates=list(req['estimates']), verbose=False)
-                probs = check_table(full, steps, fd, req, tkey)
-                first = atime.over_time(dict(data), fd, vars=list(req['vars'][:1]), estimates=[], verbose=False)
-                second = atime.over_time(first, fd, vars=list(req['vars']), estimates=list(req['estimates']), verbose=False)
+                full = atime.over_time(dict(data), fd, vars=list(req['vars']), estimates=list(req['estimates']), verbose=False, **kw)
+                probs = check_table(full, steps, fd, req, tkey, kw)
+                first = atime.over_time(dict(data), fd, vars=list(req['vars'][:1]), estimates=[], verbose=False, **kw)
+                second = atime.over_time(first, fd, vars=list(req['vars']), estimates=list(req['estimates']), verbose=False, **kw)
                 probs += tables_equal(full, second)
         return probs
     from symx.symint import sym_int
@@ -262,7 +282,8 @@ def replay_config(tier, idx, model):
     from aurel.core import AurelCore
     from aurel.finitedifference import FiniteDifference
     cfg = configs(tier)[idx]
-    req = requests_for(tier)[cfg['req']]
+    req = request_of(cfg, tier)
+    kw = kwargs_of(cfg)
     n, tkey = cfg['n'], cfg['tkey']
     param = {'xmin': 0.0, 'ymin': 0.0, 'zmin': 0.0, 'dx': 1.0, 'dy': 1.0, 'dz': 1.0, 'Nx': 6, 'Ny': 6, 'Nz': 6}
     fd = FiniteDifference(param, verbose=False)
@@ -298,7 +319,7 @@ def replay_config(tier, idx, model):
                     bad.append(f'column {k} differs')
         return dict(problems=bad, reproduces=bool(bad))
     with contextlib.redirect_stdout(io.StringIO()):
-        out = atime.over_time(dict(data), fd, vars=list(req['vars']), estimates=list(req['estimates']), verbose=False)
+        out = atime.over_time(dict(data), fd, vars=list(req['vars']), estimates=list(req['estimates']), verbose=False, **kw)
     bad = []
     tcol = list(out[tkey])
     if any(a > b for a, b in zip(tcol, tcol[1:])):
@@ -308,7 +329,7 @@ def replay_config(tier, idx, model):
         for k in ('gxx', 'kxx', 'alpha'):
             if not np.array_equal(out[k][r], copies[k][s]):
                 bad.append(f'input column {k} row {r}')
-        rel = AurelCore(fd, verbose=False)
+        rel = AurelCore(fd, verbose=False, **kw)
         for k in ('gxx', 'kxx', 'alpha'):
             rel.data[k] = copies[k][s]
         rel.data[tkey] = steps[s][tkey]
@@ -336,7 +357,8 @@ def main(report, tier, seed, workers, calibrate=False):
     report.bounds = dict(steps='n <= 2 (quick) / 3 (thorough)', cells=f'{CELLS} x 1 x 1 per array', temporal_key='symbolic integers, any order, ties allowed',
                          requests=[str({'vars': [v if isinstance(v, str) else list(v)[0] for v in r['vars']], 'estimates': r['estimates']}) for r in requests_for(tier)],
                          splits='first request alone, then everything, vs one call',
-                         outside=['tqdm / printing', 'percentile-type estimators', 'AurelCore keyword options other than defaults'])
+                         keyword_options=str(KW) + ' (one request whose value depends on them; other options at their defaults)',
+                         outside=['tqdm / printing', 'percentile-type estimators', 'AurelCore keyword options other than Lambda and one user attribute'])
     report.assumptions += ['input cells are distinct free reals; pointwise variables (derivative operator uninterpreted)']
     report.stubs += ['aurel.core/maths/finitedifference .np -> symx.npproxy', 'fd -> UninterpretedFD with Nx=2', 'stdout redirected']
     with FuncTrace() as ft:
